@@ -6,6 +6,7 @@ package c02
 import (
 	"bytes"
 	"fmt"
+	"strings"
 	"testing"
 
 	"pgregory.net/rapid"
@@ -379,6 +380,16 @@ func keyIDOf(addr []byte, n int) int {
 }
 
 func applyMut(b *types.Block, m Mut, st *sm.State, lastVals *types.ValidatorSet, spare int) bool {
+	// a second mutation on top of one that removed the part it would work on does not apply
+	if b.Data == nil && strings.HasPrefix(m.Kind, "data.") && m.Kind != "data.nil" {
+		return false
+	}
+	if b.LastCommit == nil && strings.HasPrefix(m.Kind, "commit.") && m.Kind != "commit.nil" {
+		return false
+	}
+	if b.LastCommit != nil && len(b.LastCommit.Precommits) != lastVals.Size() && (m.Kind == "commit.subquorum" || m.Kind == "commit.dropone" || m.Kind == "commit.dupvalidator") {
+		return false // the slots no longer line up with the validators (an earlier mutation added or removed one)
+	}
 	fixCommit := func() {
 		if m.Fixup && b.LastCommit != nil {
 			fc := &types.Commit{BlockID: b.LastCommit.BlockID, Precommits: b.LastCommit.Precommits}
